@@ -49,6 +49,22 @@ func NewResponseStorer(cache ResponseCache, vhn VaryHeaderNormalizer, vk VaryKey
 	return &responseStorer{cache, vhn, vk}
 }
 
+// Listed reports whether the URL's index, as stored right now, still lists the
+// response. (A validation may take a while; an unsafe request for the same URL
+// that succeeded meanwhile has invalidated what is being validated.)
+func (r *responseStorer) Listed(urlKey, responseID string) bool {
+	refs, err := r.cache.GetRefs(urlKey)
+	if err != nil {
+		return false
+	}
+	for _, ref := range refs {
+		if ref != nil && ref.ResponseID == responseID {
+			return true
+		}
+	}
+	return false
+}
+
 func (r *responseStorer) StoreResponse(
 	req *http.Request,
 	resp *http.Response,
